@@ -83,6 +83,15 @@ func buildGraph() *bGraph {
 			}
 			out := m.Type.Out(0)
 			e := &bEdge{from: t, m: m}
+			handwritten := false
+			for k := 1; k < m.Type.NumIn(); k++ {
+				// hand-written iterator variants (internal/cmds/iter.go) take a func; they are not generated code
+				handwritten = handwritten || m.Type.In(k).Kind() == reflect.Func
+			}
+			if handwritten {
+				g.skipped = append(g.skipped, t.Name()+"."+m.Name)
+				continue
+			}
 			switch {
 			case out == tCompleted && m.Name == "Build" && m.Type.NumIn() == 1:
 				e.final = "Build"
@@ -608,7 +617,7 @@ func cmdNameOf(argv []string, root string) string {
 }
 
 // emitPath runs one path op on the real code, emits it, and (for C32) the judge line
-func (st *bState) emitPath(c *Ctx, line string, judge bool, edges []*bEdge) {
+func (st *bState) emitPath(c *Ctx, line string, judge bool, edges []*bEdge) (built bool) {
 	res := execPath(st.g, line)
 	nontrivial := res.ok && len(res.argv) > 1
 	c.Emit(line, res.answer, nontrivial)
@@ -624,13 +633,13 @@ func (st *bState) emitPath(c *Ctx, line string, judge bool, edges []*bEdge) {
 		c.Hit("other:" + strings.SplitN(res.answer, ":", 2)[0])
 	}
 	if !judge || !res.ok {
-		return
+		return res.ok
 	}
 	w := strings.Fields(line)
 	name := cmdNameOf(res.argv, w[2])
 	if name == "" {
 		c.Fail("C32:root-tokens-do-not-spell-type:"+w[2], line, "argv "+strings.Join(res.argv, " ")+" does not start with the tokens of "+w[2])
-		return
+		return true
 	}
 	b01 := func(x bool) string {
 		if x {
@@ -640,15 +649,17 @@ func (st *bState) emitPath(c *Ctx, line string, judge bool, edges []*bEdge) {
 	}
 	jl := fmt.Sprintf("judge %s %s %s %d", hx(name), b01(res.blockOp), b01(res.cache), res.cf)
 	if knownNotRead[name] && res.fl[0] == '1' {
-		// known finding: a model line (the driver must reproduce the verdict) + a stable witness key
-		c.Emit(jl, "bad:readonly-not-read:"+name, true)
+		// known finding: a stable witness key on the path line (so that the replay file holds the
+		// path) + a model line on which the driver must reproduce the specification's verdict
 		c.Fail("C32:readonly-not-read:"+name, line,
 			name+" is built with IsReadOnly()=true (auto-retried, replica-eligible"+map[bool]string{true: ", offered through Cache()", false: ""}[res.cache]+") although it writes")
+		c.Emit(jl, "bad:readonly-not-read:"+name, true)
 		c.Hit("finding:" + name)
-		return
+		return true
 	}
 	// oracle line: the specification judges the flags the real code produced
 	c.Emit("!"+jl, "ok", true)
+	return true
 }
 
 func (st *bState) tablesLine(c *Ctx) {
@@ -701,12 +712,21 @@ func (st *bState) coverPaths(c *Ctx, judge bool, only func(e *bEdge) bool, varia
 				edges = append(edges, comp...)
 			}
 			for v := 0; v < variants; v++ {
-				a := &argGen{c: c, tagged: v%2 == 0}
+				// variants: tagged/init, untagged/init, tagged/noslot, untagged/noslot; a single
+				// variant is drawn at random (mostly tagged strings on a cluster builder)
+				k := v
+				if variants == 1 {
+					k = []int{0, 0, 0, 1, 2, 3}[c.Rng.IntN(6)]
+				}
+				a := &argGen{c: c, tagged: k%2 == 0}
 				init := "init"
-				if v%4 >= 2 || (v%2 == 1 && c.Rng.IntN(2) == 0) {
+				if k%4 >= 2 {
 					init = "noslot"
 				}
-				st.emitPath(c, g.pathLine(a, init, g.rootOf[t], edges), judge, edges)
+				if !st.emitPath(c, g.pathLine(a, init, g.rootOf[t], edges), judge, edges) && !st.reached[e] {
+					// the random variant panicked (cross-slot keys): reach the method with tagged strings
+					st.emitPath(c, g.pathLine(&argGen{c: c, tagged: true}, "init", g.rootOf[t], edges), judge, edges)
+				}
 			}
 		}
 	}
